@@ -194,6 +194,8 @@ int qsx_conform (mpq_QSprob p, const RefLP * M, int check_names, char *why, size
 			if (sense[r] != M->sense[r]) BAD ("get_ranged_rows sense[%d]=%c model %c", r, sense[r], M->sense[r]);
 			if (!mpq_equal (rhs[r], M->rhs[r])) BAD ("get_ranged_rows rhs[%d] differs", r);
 			if (M->sense[r] == 'R' && !mpq_equal (range[r], M->range[r])) BAD ("get_ranged_rows range[%d] differs", r);
+			/* documented: a range given for a row that is not 'R' is ignored - such a row has range zero */
+			if (M->sense[r] != 'R' && mpq_sgn (range[r])) BAD ("get_ranged_rows range[%d] is non-zero for a row of sense %c", r, M->sense[r]);
 			if (check_names && M->rname[r] && strcmp (names[r], M->rname[r])) BAD ("get_ranged_rows name[%d]='%s' model '%s'", r, names[r], M->rname[r]);
 			if (beg[r] != nent_rows) BAD ("get_ranged_rows rowbeg[%d]=%d expected %d", r, beg[r], nent_rows);
 			for (k = 0; k < cnt[r]; k++) {
